@@ -78,7 +78,7 @@ def step_times(spec):
     out = []
     for i in range(spec['nt'] + 1):
         d, t = gen_ioapi.jd_add(spec['sdate'], spec['shour'] * 10000,
-                                i * 3600)
+                                i * 3600 * int(spec.get('dhour', 1)))
         out.append((d, t // 10000))
     return out
 
@@ -547,8 +547,12 @@ def gen_spec(rng, fmt=None, maxn=5, maxt=4, small=False):
                                 1970001, 2000001, 1999364, 2068366, 2024059,
                                 2023365]))
     shour = int(rng.choice([0, 0, 12, 21, 22, 23, int(rng.integers(24))]))
+    dhour = int(rng.choice([1, 1, 1, 1, 3, 6, 12, 24]))
+    if sdate // 1000 == 2069 and sdate % 1000 + (nt * dhour + shour) // 24 \
+            > 364:
+        dhour = 1      # stay inside the 1970-2069 two-digit-year window
     spec = {'fmt': fmt, 'nx': nx, 'ny': ny, 'nz': nz, 'nt': nt,
-            'names': names, 'sdate': sdate, 'shour': shour,
+            'names': names, 'sdate': sdate, 'shour': shour, 'dhour': dhour,
             'seed': int(rng.integers(1 << 30)),
             'hostile': bool(rng.random() < 0.3)}
     if fmt == 'uamiv':
